@@ -323,9 +323,10 @@ class Report:
             if signature is not None and k.get("signature") == signature:
                 if signature not in [h[0] for h in self.known_hits]:
                     self.known_hits.append((signature, k.get("what", what)))
-                return
+                return False
         path = write_replay(self.prop, name, replay_content)
         self.violations.append((path, "" if found_input else " no-failing-input-found", what))
+        return True
 
     def finish(self, level="proof"):
         cov = dict(self.cov)
